@@ -317,7 +317,12 @@ func init() {
 		Level:       "model_checking",
 		Rule:        "all event sequences of the bound over {Ins(k1|k2, now - j·res) for j in {0,1,R-1,R,R+1}, Clock(+1·res), Clock(+R·res), Clock(+½·res), Flush, Flush×10 (ten data-carrying flushes: one of them truncates), (Flush, empty Flush)×10 (the same with an idle flush between the data-carrying ones), Restart} for retention/resolution configurations (R·res, res), started from the empty table and from a table whose file already holds a point one resolution old; after every event on every distinct state: (1) no row for a period in which only expired points arrived, values equal the accepted points only (native, grouped, relative-range and wider-than-retention queries), (2) every accepted period ending after now - retention is returned by the native scan and present in VerifDump, (3) grouped/ranged queries return nothing ending before now - retention - res, (4) periods expired when a Flush×10 completed are absent from the file store and from every later query; non-trivial = sequence containing a clock advance or late point together with a flush/restart",
 		Assumptions: []string{"'older' is strict: a point exactly at now - retention is kept", "a wider-than-retention ASOF may be refused by the planner"},
-		Shards:      func(tier string) int { return 16 },
+		Shards: func(tier string) int {
+			if tier == "thorough" {
+				return 64 // short-lived workers: every closed zenodb instance leaves goroutines and buffers behind
+			}
+			return 16
+		},
 		Budget: func(tier string) time.Duration {
 			if tier == "thorough" {
 				return 45 * time.Minute
